@@ -54,11 +54,13 @@ PLAN["C01"] = dict(
 
 PLAN["C08"] = dict(
     level="proof",
-    functions=[(SORT, "compare_gaf"), (SORT, "process_alignment#body")],
+    functions=[(SORT, "compare_gaf"), (SORT, "process_alignment#body"), (SORT, "sort#passes")],
     extra={(SORT, "compare_gaf"): sort_c.relational_obligations},
     explanation="compare_gaf is verified against the lexicographic key (untagged, BO, NO, start, offset) on every path, and antisymmetry / "
                 "transitivity / totality are proved directly on the code (three symbolic records). process_alignment's body (anchor = last node iff "
-                "strictly more tagged scaffold steps are '<' than '>', (BO, NO) of the anchor, start on the anchor side) is verified for every path length.",
+                "strictly more tagged scaffold steps are '<' than '>', (BO, NO) of the anchor, start on the anchor side) is verified for every path length. "
+                "sort#passes (both passes of sort(), shared with C09 / C10) ties the two together: the entry stored for every input record holds the keys "
+                "process_alignment computed for THAT record's fields (no state carried from one line to the next) and the list is sorted with compare_gaf.",
     trusted_base=["assumed: list.sort(key=cmp_to_key(f)) yields a permutation sorted w.r.t. f whenever f is a strict total order (CPython)"],
     not_applicable_clauses=[],
     mutations=[
